@@ -1,0 +1,725 @@
+//go:build verif
+
+package main
+
+// Verification driver (build tag "verif" only).  When HR_VERIF_DRIVER is set the
+// binary reads one JSON case per line from stdin, runs the real code in-process and
+// prints one JSON observation per line.  It is never compiled into a normal build.
+
+import (
+	"bufio"
+	"bytes"
+	"encoding/hex"
+	"encoding/json"
+	"errors"
+	"fmt"
+	"io"
+	"math/big"
+	"math/rand"
+	"os"
+	"path/filepath"
+	"runtime"
+	"runtime/debug"
+	"sort"
+	"strconv"
+	"strings"
+	"syscall"
+	"time"
+
+	"github.com/aquilax/hranoprovod-cli/cmd/hranoprovod-cli/v3/internal/balance"
+	"github.com/aquilax/hranoprovod-cli/cmd/hranoprovod-cli/v3/internal/csv"
+	"github.com/aquilax/hranoprovod-cli/cmd/hranoprovod-cli/v3/internal/lint"
+	"github.com/aquilax/hranoprovod-cli/cmd/hranoprovod-cli/v3/internal/options"
+	"github.com/aquilax/hranoprovod-cli/cmd/hranoprovod-cli/v3/internal/print"
+	"github.com/aquilax/hranoprovod-cli/cmd/hranoprovod-cli/v3/internal/register"
+	"github.com/aquilax/hranoprovod-cli/cmd/hranoprovod-cli/v3/internal/report"
+	"github.com/aquilax/hranoprovod-cli/cmd/hranoprovod-cli/v3/internal/stats"
+	"github.com/aquilax/hranoprovod-cli/cmd/hranoprovod-cli/v3/internal/summary"
+	"github.com/aquilax/hranoprovod-cli/cmd/hranoprovod-cli/v3/internal/utils"
+	shared "github.com/aquilax/hranoprovod-cli/v3"
+	"github.com/aquilax/hranoprovod-cli/v3/parser"
+	"github.com/aquilax/hranoprovod-cli/v3/resolver"
+	"github.com/aquilax/truncate"
+	"github.com/urfave/cli/v2"
+)
+
+func init() {
+	if os.Getenv("HR_VERIF_DRIVER") == "" {
+		return
+	}
+	verifMain()
+	os.Exit(0)
+}
+
+type vFile struct {
+	Name string `json:"name"`
+	Data string `json:"data"`
+}
+
+type vFail struct {
+	Name string `json:"name"`
+	At   int    `json:"at"`
+}
+
+type vEl struct {
+	N string `json:"n"`
+	V string `json:"v"`
+}
+
+type vRec struct {
+	Name string `json:"name"`
+	Els  []vEl  `json:"els"`
+}
+
+type vCase struct {
+	ID         json.RawMessage   `json:"id"`
+	Mode       string            `json:"mode"`
+	Argv       []string          `json:"argv"`
+	Files      []vFile           `json:"files"`
+	OSEnv      map[string]string `json:"osenv"`
+	HomeConfig *string           `json:"homeConfig"`
+	Disk       bool              `json:"disk"`
+	TZ         string            `json:"tz"`
+	ReadFail   []vFail           `json:"readFail"`
+	SinkFail   *int              `json:"sinkFail"`
+	Reps       int               `json:"reps"`
+	TimeoutMs  int               `json:"timeoutMs"`
+	// unit modes
+	Src        string   `json:"src"`
+	FailAt     *int     `json:"failAt"`
+	S          string   `json:"s"`
+	V          string   `json:"v"`
+	Prec       int      `json:"prec"`
+	Width      int      `json:"width"`
+	Layout     string   `json:"layout"`
+	Value      string   `json:"value"`
+	Max        int      `json:"max"`
+	Book       []vRec   `json:"book"`
+	MaxDepth   int      `json:"maxDepth"`
+	Order      []string `json:"order"`
+	API        string   `json:"api"`
+	Unreadable bool     `json:"unreadable"`
+	Policy     string   `json:"policy"`
+	Jitter     int64    `json:"jitter"`
+	Chunks     []string `json:"chunks"`
+	K          int      `json:"k"`
+	Size       int      `json:"size"`
+}
+
+type obj = map[string]interface{}
+
+func hx(b []byte) string { return hex.EncodeToString(b) }
+
+func unhex(s string) []byte {
+	b, err := hex.DecodeString(s)
+	if err != nil {
+		panic("bad hex: " + s)
+	}
+	return b
+}
+
+var errVerifRead = errors.New("verif: injected read error")
+var errVerifWrite = errors.New("verif: injected write error")
+
+// failingReader serves data[:at] and then returns an error instead of more data / EOF.
+type failingReader struct {
+	data []byte
+	at   int
+	pos  int
+}
+
+func (r *failingReader) Read(p []byte) (int, error) {
+	limit := len(r.data)
+	fails := r.at <= len(r.data)
+	if fails {
+		limit = r.at
+	}
+	if r.pos >= limit {
+		if fails {
+			return 0, errVerifRead
+		}
+		return 0, io.EOF
+	}
+	n := copy(p, r.data[r.pos:limit])
+	r.pos += n
+	return n, nil
+}
+
+// failingWriter accepts k bytes in total, then fails every write.
+type failingWriter struct {
+	buf   bytes.Buffer
+	limit int // -1: never fails
+}
+
+func (w *failingWriter) Write(p []byte) (int, error) {
+	if w.limit < 0 {
+		return w.buf.Write(p)
+	}
+	room := w.limit - w.buf.Len()
+	if len(p) <= room {
+		return w.buf.Write(p)
+	}
+	if room > 0 {
+		w.buf.Write(p[:room])
+	} else {
+		room = 0
+	}
+	return room, errVerifWrite
+}
+
+func ratOfFloat(f float64) string {
+	if f != f {
+		return "nan"
+	}
+	if f > 1.7976931348623157e308 {
+		return "+inf"
+	}
+	if f < -1.7976931348623157e308 {
+		return "-inf"
+	}
+	r := new(big.Rat).SetFloat64(f)
+	return r.Num().String() + "/" + r.Denom().String()
+}
+
+func floatOfRat(s string) float64 {
+	r, ok := new(big.Rat).SetString(s)
+	if !ok {
+		panic("bad rational " + s)
+	}
+	f, _ := r.Float64()
+	return f
+}
+
+func classify(err error) obj {
+	o := obj{"status": "err", "text": hx([]byte(err.Error()))}
+	var bs *parser.ErrorBadSyntax
+	var cv *parser.ErrorConversion
+	var tp *time.ParseError
+	var pe *os.PathError
+	switch {
+	case errors.As(err, &bs):
+		o["class"] = "badSyntax"
+		o["line"] = bs.LineNumber
+		o["raw"] = hx([]byte(bs.Line))
+	case errors.As(err, &cv):
+		o["class"] = "conversion"
+		o["line"] = cv.LineNumber
+		o["raw"] = hx([]byte(cv.Line))
+	case errors.As(err, &tp):
+		o["class"] = "date"
+		o["header"] = hx([]byte(tp.Value))
+	case errors.Is(err, bufio.ErrTooLong):
+		o["class"] = "tooLong"
+	case errors.Is(err, errVerifRead):
+		o["class"] = "read"
+	case errors.Is(err, errVerifWrite), errors.Is(err, io.ErrShortWrite):
+		o["class"] = "write"
+	case strings.Contains(err.Error(), "maximum resolution depth"):
+		o["class"] = "depth"
+	case errors.As(err, &pe):
+		o["class"] = "open"
+		o["path"] = hx([]byte(pe.Path))
+	default:
+		o["class"] = "other"
+	}
+	return o
+}
+
+// ---------------------------------------------------------------------------------------
+// app mode
+
+func buildApp(files map[string][]byte, readFail map[string]int, sink io.Writer) *cli.App {
+	cu := utils.CmdUtils{
+		WithFileReaders: func(fileNames []string, cb func([]io.Reader) error) error {
+			result := make([]io.Reader, len(fileNames))
+			for i, name := range fileNames {
+				data, ok := files[name]
+				if !ok {
+					if name == os.DevNull {
+						data = []byte{}
+					} else {
+						return &os.PathError{Op: "open", Path: name, Err: syscall.ENOENT}
+					}
+				}
+				if at, ok := readFail[name]; ok {
+					result[i] = &failingReader{data: data, at: at}
+				} else {
+					result[i] = bytes.NewReader(data)
+				}
+			}
+			return cb(result)
+		},
+		WithOptions: func(c *cli.Context, cb func(*options.Options) error) error {
+			o := options.New()
+			if err := o.Load(c, true); err != nil {
+				return err
+			}
+			o.ReporterConfig.Output = sink
+			return cb(o)
+		},
+	}
+	a := GetApp()
+	a.Commands = []*cli.Command{
+		register.NewRegisterCommand(cu, register.Register),
+		balance.NewBalanceCommand(cu, balance.Balance),
+		lint.VerifNewLintCommand(cu),
+		report.NewReportCommand(cu),
+		csv.NewCSVCommand(cu),
+		stats.NewStatsCommand(cu, stats.Stats),
+		summary.NewSummaryCommand(cu, summary.Summary),
+		print.NewPrintCommand(cu, print.Print),
+	}
+	a.Writer = io.Discard
+	a.ErrWriter = io.Discard
+	a.ExitErrHandler = func(*cli.Context, error) {}
+	return a
+}
+
+func runAppOnce(c *vCase) obj {
+	files := map[string][]byte{}
+	for _, f := range c.Files {
+		files[string(unhex(f.Name))] = unhex(f.Data)
+	}
+	readFail := map[string]int{}
+	for _, f := range c.ReadFail {
+		readFail[string(unhex(f.Name))] = f.At
+	}
+	limit := -1
+	if c.SinkFail != nil {
+		limit = *c.SinkFail
+	}
+	sink := &failingWriter{limit: limit}
+	argv := []string{"hranoprovod-cli"}
+	for _, a := range c.Argv {
+		argv = append(argv, string(unhex(a)))
+	}
+	timeout := time.Duration(c.TimeoutMs) * time.Millisecond
+	if timeout == 0 {
+		timeout = 10 * time.Second
+	}
+	type result struct {
+		err   error
+		panic interface{}
+		stack string
+	}
+	done := make(chan result, 1)
+	go func() {
+		var res result
+		defer func() {
+			if r := recover(); r != nil {
+				res.panic = r
+				res.stack = string(debug.Stack())
+			}
+			done <- res
+		}()
+		res.err = buildApp(files, readFail, sink).Run(argv)
+	}()
+	select {
+	case res := <-done:
+		if res.panic != nil {
+			return obj{"status": "panic", "text": hx([]byte(fmt.Sprint(res.panic))), "stack": res.stack, "out": hx(sink.buf.Bytes())}
+		}
+		if res.err != nil {
+			o := classify(res.err)
+			o["out"] = hx(sink.buf.Bytes())
+			return o
+		}
+		return obj{"status": "ok", "out": hx(sink.buf.Bytes())}
+	case <-time.After(timeout):
+		return obj{"status": "timeout", "out": ""}
+	}
+}
+
+func runApp(c *vCase) obj {
+	// environment
+	for _, kv := range os.Environ() {
+		if strings.HasPrefix(kv, "HR_") && !strings.HasPrefix(kv, "HR_VERIF") {
+			os.Unsetenv(strings.SplitN(kv, "=", 2)[0])
+		}
+	}
+	for k, v := range c.OSEnv {
+		os.Setenv(k, string(unhex(v)))
+	}
+	defer func() {
+		for k := range c.OSEnv {
+			os.Unsetenv(k)
+		}
+	}()
+	// time zone
+	oldLocal := time.Local
+	if c.TZ != "" {
+		loc, err := time.LoadLocation(c.TZ)
+		if err != nil {
+			return obj{"status": "driver-error", "error": err.Error()}
+		}
+		time.Local = loc
+	}
+	defer func() { time.Local = oldLocal }()
+	// files on disk (cwd is the per-process scratch directory)
+	home := os.Getenv("HOME")
+	cfgPath := filepath.Join(home, ".hranoprovod", "config")
+	os.Remove(cfgPath)
+	if c.HomeConfig != nil {
+		os.MkdirAll(filepath.Dir(cfgPath), 0o755)
+		os.WriteFile(cfgPath, unhex(*c.HomeConfig), 0o644)
+		defer os.Remove(cfgPath)
+	}
+	if c.Disk {
+		for _, f := range c.Files {
+			name := string(unhex(f.Name))
+			if name == "" || strings.ContainsAny(name, "/\x00") || name == "." || name == ".." {
+				continue
+			}
+			os.WriteFile(name, unhex(f.Data), 0o644)
+			defer os.Remove(name)
+		}
+	}
+	reps := c.Reps
+	if reps < 1 {
+		reps = 1
+	}
+	first := runAppOnce(c)
+	distinct := 1
+	if first["status"] == "timeout" {
+		return first
+	}
+	firstKey := fmt.Sprint(first["status"], first["class"], first["text"], first["out"])
+	for i := 1; i < reps; i++ {
+		other := runAppOnce(c)
+		key := fmt.Sprint(other["status"], other["class"], other["text"], other["out"])
+		if key != firstKey {
+			distinct++
+			first["other"] = other
+			break
+		}
+	}
+	first["distinct"] = distinct
+	return first
+}
+
+// ---------------------------------------------------------------------------------------
+// unit modes
+
+func elementsJSON(els shared.Elements) []interface{} {
+	out := make([]interface{}, 0, len(els))
+	for _, e := range els {
+		out = append(out, []interface{}{hx([]byte(e.Name)), ratOfFloat(e.Value)})
+	}
+	return out
+}
+
+func runParse(c *vCase) obj {
+	src := unhex(c.Src)
+	var r io.Reader = bytes.NewReader(src)
+	if c.FailAt != nil {
+		r = &failingReader{data: src, at: *c.FailAt}
+	}
+	events := []interface{}{}
+	err := parser.ParseStreamCallback(r, parser.NewDefaultConfig(), func(n *shared.ParserNode, err error) (bool, error) {
+		if err != nil {
+			o := classify(err)
+			ev := obj{"t": o["class"], "line": o["line"], "raw": o["raw"], "msg": o["text"]}
+			if cv, ok := err.(*parser.ErrorConversion); ok {
+				ev["text"] = hx([]byte(cv.Text))
+			}
+			events = append(events, ev)
+			return false, nil
+		}
+		notes := []interface{}{}
+		if n.Metadata != nil {
+			for _, m := range *n.Metadata {
+				notes = append(notes, []interface{}{hx([]byte(m.Name)), hx([]byte(m.Value))})
+			}
+		}
+		events = append(events, obj{"t": "node", "header": hx([]byte(n.Header)), "elements": elementsJSON(n.Elements), "notes": notes})
+		return false, nil
+	})
+	se := "none"
+	if err != nil {
+		se = fmt.Sprint(classify(err)["class"])
+	}
+	return obj{"events": events, "scanErr": se}
+}
+
+func runNum(c *vCase) obj {
+	f, err := strconv.ParseFloat(string(unhex(c.S)), 64)
+	if err != nil {
+		return obj{"r": "bad"}
+	}
+	if f != f || f > 1.7976931348623157e308 || f < -1.7976931348623157e308 {
+		return obj{"r": "nonfinite"}
+	}
+	return obj{"r": "value", "v": ratOfFloat(f)}
+}
+
+func runFmt(c *vCase) obj {
+	f := floatOfRat(c.V)
+	var s string
+	if c.Width > 0 {
+		s = fmt.Sprintf("%*.*f", c.Width, c.Prec, f)
+	} else {
+		s = fmt.Sprintf("%0.*f", c.Prec, f)
+	}
+	return obj{"out": hx([]byte(s)), "exact": ratOfFloat(f) == normRat(c.V)}
+}
+
+func normRat(s string) string {
+	r, _ := new(big.Rat).SetString(s)
+	return r.Num().String() + "/" + r.Denom().String()
+}
+
+func runDate(c *vCase) obj {
+	layout := string(unhex(c.Layout))
+	t, err := time.Parse(layout, string(unhex(c.Value)))
+	if err != nil {
+		return obj{"r": "error"}
+	}
+	days := t.Unix() / 86400
+	if t.Unix() < 0 && t.Unix()%86400 != 0 {
+		days--
+	}
+	return obj{"r": "ok", "y": t.Year(), "m": int(t.Month()), "d": t.Day(), "days": days, "fmt": hx([]byte(t.Format(layout))), "rt": "true"}
+}
+
+func runShorten(c *vCase) obj {
+	s := string(unhex(c.S))
+	return obj{"out": hx([]byte(truncate.Truncate(s, c.Max, truncate.DEFAULT_OMISSION, truncate.PositionMiddle))), "runes": len([]rune(s))}
+}
+
+func bookOf(c *vCase) shared.DBNodeMap {
+	db := shared.NewDBNodeMap()
+	for _, rec := range c.Book {
+		els := shared.NewElements()
+		for _, e := range rec.Els {
+			els.Add(string(unhex(e.N)), floatOfRat(e.V))
+		}
+		db.Push(&shared.DBNode{Header: string(unhex(rec.Name)), Elements: els})
+	}
+	return db
+}
+
+func bookJSON(db shared.DBNodeMap) []interface{} {
+	keys := make([]string, 0, len(db))
+	for k := range db {
+		keys = append(keys, k)
+	}
+	sort.Strings(keys)
+	out := []interface{}{}
+	for _, k := range keys {
+		out = append(out, obj{"name": hx([]byte(k)), "els": elementsJSON(db[k].Elements)})
+	}
+	return out
+}
+
+func runResolve(c *vCase) obj {
+	reps := c.Reps
+	if reps < 1 {
+		reps = 1
+	}
+	var first obj
+	var firstKey string
+	distinct := 1
+	for i := 0; i < reps; i++ {
+		db := bookOf(c)
+		var err error
+		switch c.API {
+		case "struct":
+			err = resolver.NewResolver(db, resolver.Config{MaxDepth: c.MaxDepth}).Resolve()
+		case "hook":
+			order := make([]string, len(c.Order))
+			for i, o := range c.Order {
+				order[i] = string(unhex(o))
+			}
+			err = verifResolveInOrder(resolver.Config{MaxDepth: c.MaxDepth}, db, order)
+		default:
+			_, err = resolver.Resolve(resolver.Config{MaxDepth: c.MaxDepth}, db)
+		}
+		var o obj
+		if err != nil {
+			o = obj{"r": fmt.Sprint(classify(err)["class"])}
+		} else {
+			o = obj{"r": "ok", "book": bookJSON(db)}
+		}
+		b, _ := json.Marshal(o)
+		if i == 0 {
+			first, firstKey = o, string(b)
+		} else if string(b) != firstKey {
+			distinct++
+			first["other"] = o
+			break
+		}
+	}
+	first["distinct"] = distinct
+	return first
+}
+
+func msgOfErr(err error) obj {
+	var bs *parser.ErrorBadSyntax
+	var cv *parser.ErrorConversion
+	if errors.As(err, &bs) || errors.As(err, &cv) {
+		return obj{"t": "perr", "msg": hx([]byte(err.Error()))}
+	}
+	return obj{"t": "ioerr"}
+}
+
+func runChan(c *vCase) obj {
+	rnd := rand.New(rand.NewSource(c.Jitter))
+	jitter := func() {
+		switch rnd.Intn(4) {
+		case 0:
+			runtime.Gosched()
+		case 1:
+			time.Sleep(time.Duration(rnd.Intn(50)) * time.Microsecond)
+		}
+	}
+	p := parser.NewParser(parser.NewDefaultConfig())
+	exited := make(chan struct{})
+	go func() {
+		defer close(exited)
+		if c.Unreadable {
+			p.ParseFile(filepath.Join(os.TempDir(), "hr-verif-no-such-file-"+strconv.FormatInt(c.Jitter, 10)))
+			return
+		}
+		src := unhex(c.Src)
+		var r io.Reader = &jitterReader{r: bytes.NewReader(src), jitter: jitter}
+		if c.FailAt != nil {
+			r = &failingReader{data: src, at: *c.FailAt}
+		}
+		p.ParseStream(r)
+	}()
+	received := []interface{}{}
+	consumerDone := make(chan struct{})
+	go func() {
+		defer close(consumerDone)
+		for {
+			jitter()
+			select {
+			case n := <-p.Nodes:
+				received = append(received, obj{"t": "node", "header": hx([]byte(n.Header))})
+			case err := <-p.Errors:
+				received = append(received, msgOfErr(err))
+				if c.Policy != "drain" {
+					return
+				}
+			case <-p.Done:
+				received = append(received, obj{"t": "done"})
+				return
+			}
+		}
+	}()
+	timeout := time.Duration(c.TimeoutMs) * time.Millisecond
+	if timeout == 0 {
+		timeout = 2 * time.Second
+	}
+	consumer := "returned"
+	select {
+	case <-consumerDone:
+	case <-time.After(timeout):
+		consumer = "hang"
+	}
+	producer := "exited"
+	select {
+	case <-exited:
+	case <-time.After(150 * time.Millisecond):
+		producer = "blocked"
+	}
+	res := obj{"consumer": consumer, "producer": producer}
+	if consumer == "returned" {
+		res["received"] = received
+	} else {
+		res["received"] = []interface{}{}
+	}
+	return res
+}
+
+type jitterReader struct {
+	r      io.Reader
+	jitter func()
+}
+
+func (j *jitterReader) Read(p []byte) (int, error) {
+	if len(p) > 7 {
+		p = p[:7]
+	}
+	return j.r.Read(p)
+}
+
+func runSink(c *vCase) obj {
+	size := c.Size
+	if size == 0 {
+		size = 4096
+	}
+	fw := &failingWriter{limit: c.K}
+	w := bufio.NewWriterSize(fw, size)
+	for _, ch := range c.Chunks {
+		w.Write(unhex(ch))
+	}
+	err := w.Flush()
+	return obj{"err": err != nil, "got": hx(fw.buf.Bytes())}
+}
+
+func runTrimSpace(c *vCase) obj {
+	return obj{"out": hx([]byte(strings.TrimSpace(string(unhex(c.S)))))}
+}
+
+func verifMain() {
+	in := bufio.NewReaderSize(os.Stdin, 1<<20)
+	out := bufio.NewWriter(os.Stdout)
+	defer out.Flush()
+	for {
+		line, err := in.ReadBytes('\n')
+		if len(bytes.TrimSpace(line)) > 0 {
+			var c vCase
+			var res obj
+			if jerr := json.Unmarshal(line, &c); jerr != nil {
+				res = obj{"status": "driver-error", "error": jerr.Error()}
+			} else {
+				res = dispatch(&c)
+				res["id"] = c.ID
+			}
+			b, _ := json.Marshal(res)
+			out.Write(b)
+			out.WriteByte('\n')
+			out.Flush()
+		}
+		if err != nil {
+			return
+		}
+	}
+}
+
+func dispatch(c *vCase) (res obj) {
+	defer func() {
+		if r := recover(); r != nil {
+			res = obj{"status": "panic", "text": hx([]byte(fmt.Sprint(r))), "stack": string(debug.Stack())}
+		}
+	}()
+	switch c.Mode {
+	case "app":
+		return runApp(c)
+	case "parse":
+		return runParse(c)
+	case "num":
+		return runNum(c)
+	case "fmt":
+		return runFmt(c)
+	case "date":
+		return runDate(c)
+	case "shorten":
+		return runShorten(c)
+	case "trimspace":
+		return runTrimSpace(c)
+	case "resolve":
+		return runResolve(c)
+	case "chan":
+		return runChan(c)
+	case "sink":
+		return runSink(c)
+	}
+	return obj{"status": "driver-error", "error": "unknown mode " + c.Mode}
+}
+
+// verifResolveInOrder drives the resolver in a chosen visiting order (hook in package resolver).
+var verifResolveInOrder = func(c resolver.Config, db shared.DBNodeMap, order []string) error {
+	return errors.New("verif: ordered resolution hook not available")
+}
